@@ -40,6 +40,10 @@ func (h *RefreshFunc) Final(ctx *sqlite.AggregateContext) {
 		ctx.ResultError(fmt.Errorf("table not found: %s", fCtx.tableName))
 		return
 	}
+	if vt.InTransaction() {
+		ctx.ResultError(fmt.Errorf("cannot refresh %s from within a transaction that wrote to it", fCtx.tableName))
+		return
+	}
 	nt, err := s3db.OpenKV(h.sc.ctx, vt.S3Options, "s3db-rows")
 	if err != nil {
 		ctx.ResultError(fmt.Errorf("open: %w", err))
